@@ -16,8 +16,9 @@ from translate.util import TranslateError
 
 REL = 1e-13
 # the finite-difference oracle differentiates *computed* integrals, whose own error (C01, C12) is amplified by 1/h;
-# a misplaced, transposed, dropped or doubled block is an O(1) error, so 5% of the largest element separates the two
-FD_TOL = 0.05
+# with small steps and a median over three step sizes the oracle agrees to ~1e-7 on the clean tree; a misplaced,
+# transposed, dropped or doubled block is an O(1) error
+FD_TOL = 1e-3
 
 
 def unhex(s):
@@ -115,8 +116,13 @@ def hpos(a, b, p, q, N):
     return start + 6 + 9 * (b - a - 1) + 3 * p + q
 
 
-def fd_oracle(drv, sysd, base, h=4e-3):
-    """Richardson central differences with respect to moving whole atoms (in the integrator's numbering)"""
+HS = (1e-4, 3e-4, 1e-3)
+
+
+def fd_oracle(drv, sysd, base):
+    """central differences with respect to moving whole atoms (in the integrator's numbering).
+    The computed integrals have isolated glitches as a function of geometry (C01/C12 findings), so each
+    derivative is the element-wise MEDIAN of three step sizes: one bad evaluation cannot move it."""
     sid, eid, order = expected_ids(sysd)
     N = len(order)
     lines = list(sysd["lines"])
@@ -125,12 +131,13 @@ def fd_oracle(drv, sysd, base, h=4e-3):
     for n in range(N):
         atom = order[n]
         for q in range(3):
-            for mult in (1, -1, 2, -2):
-                pos = [list(p) for p in sysd["pos"]]
-                pos[atom][q] += mult * h
-                lines.append("geom %d " % gid + " ".join(repr(x) for p in pos for x in p))
-                geoms[(n, q, mult)] = gid
-                gid += 1
+            for hi, h in enumerate(HS):
+                for sgn in (1, -1):
+                    pos = [list(p) for p in sysd["pos"]]
+                    pos[atom][q] += sgn * h
+                    lines.append("geom %d " % gid + " ".join(repr(x) for p in pos for x in p))
+                    geoms[(n, q, hi, sgn)] = gid
+                    gid += 1
     req = lines + ["results %d 1" % g for g in geoms.values()]
     rc, out, err = run(drv, "\n".join(req) + "\n")
     if rc != 0:
@@ -143,16 +150,17 @@ def fd_oracle(drv, sysd, base, h=4e-3):
             cur.append(l[2:])
     res = dict(zip(geoms.keys(), blocks))
     fails, worst = [], 0.0
-    def rich(f):
-        return lambda n, q: [(8 * (a - b) - (c - d)) / (12 * h) for a, b, c, d in zip(f(res[(n, q, 1)]), f(res[(n, q, -1)]), f(res[(n, q, 2)]), f(res[(n, q, -2)]))]
-    dI = rich(lambda r: r["I"])
+
+    def med(f, n, q):
+        ds = [[(a - b) / (2 * h) for a, b in zip(f(res[(n, q, hi, 1)]), f(res[(n, q, hi, -1)]))] for hi, h in enumerate(HS)]
+        return [sorted(t)[1] for t in zip(*ds)]
     scale1 = max([max(abs(x) for x in v) for v in base["D"].values()] + [1e-300])
     for n in range(N):
         for q in range(3):
-            fd = dI(n, q)
+            fd = med(lambda r: r["I"], n, q)
             d, _ = maxdiff(fd, base["D"].get(3 * n + q))
             worst = max(worst, d / scale1)
-            if d > FD_TOL * scale1 + 1e-6:
+            if d > FD_TOL * scale1 + 1e-7:
                 fails.append({"what": "first_derivs[%d] (atom %d, coordinate %d) differs from the finite difference of the integral matrix with respect to moving that atom by %.3g (largest derivative element %.3g)" % (3 * n + q, n, q, d, scale1)})
     if base["H"]:
         scale2 = max([max(abs(x) for x in v) for v in base["H"].values()] + [1e-300])
@@ -164,10 +172,10 @@ def fd_oracle(drv, sysd, base, h=4e-3):
                     for q in range(3):
                         if a == b and p > q:
                             continue
-                        fd = rich(lambda r: r["D"][3 * a + p])(b, q)
+                        fd = med(lambda r: r["D"][3 * a + p], b, q)
                         d, _ = maxdiff(fd, base["H"].get(hpos(a, b, p, q, N)))
                         worst = max(worst, d / scale2)
-                        if d > FD_TOL * scale2 + 1e-6:
+                        if d > FD_TOL * scale2 + 1e-7:
                             fails.append({"what": "second_derivs[%d] (atoms %d,%d coordinates %d,%d) differs from the finite difference of first_derivs[%d] with respect to atom %d coordinate %d by %.3g (largest element %.3g)" % (hpos(a, b, p, q, N), a, b, p, q, 3 * a + p, b, q, d, scale2)})
     return fails, worst
 
@@ -280,6 +288,13 @@ def main(ctx):
     ctx.sample({"system": systems[-1]["lines"]})
     if prop_fail:
         ctx.violation("failing-input", prop_fail[0]["what"], {"input": prop_fail[0], "n_failing": len(prop_fail)}, True)
+    elif corr_fail and proofs_ok:
+        # the Lean model is proved equal to the documented assembly (Props/C04.lean builds), so a system on which
+        # the integrator's matrices differ from the model's assembly of the engine's own blocks IS a failing input
+        f = corr_fail[0]
+        ctx.violation("failing-input", "integrator output differs from the documented assembly of the engine's own per-triple blocks: " + f["where"],
+                      {"input": f, "n_failing": len(corr_fail), "fd_oracle_confirms": [x["what"] for x in fd_fail[:2]],
+                       "replay_note": "feed `system` + 'assemble 0 2' to harness/corr_api.cpp and its '> ' lines to lean/.lake/build/bin/driver"}, True)
     elif need_search:
         if fd_fail:
             ctx.violation("failing-input", fd_fail[0]["what"], {"input": fd_fail[0], "n_failing": len(fd_fail),
@@ -290,7 +305,7 @@ def main(ctx):
                           {"searched_systems": len(systems), "fd_oracle_systems": n_fd, "first_disagreement": corr_fail[:1]}, False)
     elif fd_fail:
         # assembly agrees with the model and the theorems hold, yet the matrices are not the derivatives of
-        # the integrals: that is a defect of the low-level routines (C02/C03), reported there, not here
+        # the integrals: that is a defect of the low-level routines (C01-C03), reported there, not here
         ctx.notes.append("finite-difference smoke pass deviates although the assembly corresponds: %s" % fd_fail[0]["what"])
     ctx.assumptions += ["centres that belong to one atom are bit-identical and distinct atoms are at least 1 bohr apart in the generated systems (the model takes the same 1e-4 L1 test as init())",
                         "the element loops of api.cpp act block-wise on disjoint index ranges (validated by the correspondence, not proved)"]
